@@ -155,6 +155,26 @@ class Builder:
             d = "e%d.0" % i
             ports = self.make_ports(d, r.randint(0 if r.random() < 0.1 else 1, c["max_ports"]), True)
             self.defs.append({"h": d, "level": 0, "ports": ports, "leaf": True, "libh": lib})
+        if c.get("twin_defs") and len(libs) > 1 and self.defs:
+            # definition names are unique per library only: the same name (and the same ports) in another library
+            src = r.choice(self.defs)
+            others = [l for l in libs if l != src["libh"]]
+            if others:
+                lib2 = others[0] if c.get("acyclic_libs") else r.choice(others)
+                nm_ = [e for e in self.ev if e.get("op") == "create_definition" and "e%d.0" % e["i"] == src["h"]][0].get("name")
+                i = self.emit({"op": "create_definition", "on": lib2, "name": nm_})
+                d2 = "e%d.0" % i
+                ports2 = []
+                for ph, pins in src["ports"]:
+                    pe = dict([e for e in self.ev if e.get("op") == "create_port" and "e%d.0" % e["i"] == ph][0])
+                    pe.pop("i", None)
+                    pe["on"] = d2
+                    pe.pop("props", None)
+                    k = self.emit(pe)
+                    ports2.append(("e%d.0" % k, ["e%d.%d" % (k, j + 1) for j in range(len(pins))]))
+                # (not offered as a child to later cells: with acyclic_libs a use from a lower library would close a
+                # cycle of library dependencies; it is there to be found by name and to be re-pointed to)
+                self.twins = [{"h": d2, "level": 0, "ports": ports2, "leaf": True, "libh": lib2, "twin_of": src["h"]}]
         if c["wire_only"]:
             lib = self.lib_for(0)
             i = self.emit({"op": "create_definition", "on": lib, "name": self.nm("wireonly")})
@@ -208,13 +228,37 @@ class Builder:
         self.top = "e%d.0" % i
         if c.get("top_name", True):
             self.emit({"op": "set_name", "on": self.top, "v": "topinst"})
+        if c.get("rewrap"):
+            # the design gets a new top level afterwards: the former top instance becomes a child of a wrapper
+            # cell, its pins are wired there, and a new top instance is installed (by either of the two public ways)
+            old_top, top_ports = self.top, rec["ports"]
+            wi = self.emit({"op": "create_definition", "on": lib, "name": "wrapper_%d" % self.uid})
+            wrap = "e%d.0" % wi
+            wires = []
+            for ph, pins in top_ports:
+                ci = self.emit({"op": "create_cable", "on": wrap, "name": self.nm("n", wrap), "wires": len(pins)})
+                wires.append(["e%d.%d" % (ci, k + 1) for k in range(len(pins))])
+            self.emit({"op": "add_child", "on": wrap, "x": old_top})
+            for (ph, pins), ws in zip(top_ports, wires):
+                for pin, wr in zip(pins, ws):
+                    if r.random() < 0.85:
+                        self.emit({"op": "connect_pin", "on": wr, "pin": {"k": "stored", "i": old_top, "p": pin}})
+            if wires and wires[0] and r.random() < 0.7:
+                pi = self.emit({"op": "create_port", "on": wrap, "name": self.nm("p", wrap), "pins": 1, "direction": "in"})
+                self.emit({"op": "connect_pin", "on": wires[0][0], "pin": {"k": "in", "h": "e%d.1" % pi}})
+            ni = self.emit({"op": "instance_new", "name": "newtop"})
+            self.emit({"op": "set_reference", "on": "e%d.0" % ni, "x": wrap})
+            self.emit({"op": r.choice(["set_top_instance", "set_top"]), "on": self.netlist, "x": "e%d.0" % ni})
+            self.top = "e%d.0" % ni
+            self.topdef = wrap
+            self.defs.append({"h": wrap, "level": c["depth"] + 1, "ports": [], "leaf": False, "libh": lib})
         if c.get("shuffle_order"):
             # declaration order that is not dependency order (the writers must sort)
             ls = list(libs)
             r.shuffle(ls)
             self.emit({"op": "set_libraries", "on": self.netlist, "xs": ls})
             for lib in libs:
-                ds = [x["h"] for x in self.defs + getattr(self, "extra_defs", []) if x.get("libh") == lib]
+                ds = [x["h"] for x in self.defs + getattr(self, "extra_defs", []) + getattr(self, "twins", []) if x.get("libh") == lib]
                 if len(ds) > 1:
                     r.shuffle(ds)
                     self.emit({"op": "set_definitions", "on": lib, "xs": ds})
